@@ -164,7 +164,7 @@ func errStr(err error) string {
 	case errors.Is(err, utils.ErrHotKeyWriteThrottle):
 		return "throttled"
 	}
-	return "other:" + err.Error()
+	return "other:" + scrub(err.Error())
 }
 
 // txnScript is one generated transaction of a client task.
@@ -196,7 +196,7 @@ func (m *modeC) runTxn(task, ord int, sc txnScript, step int) {
 			if err == nil {
 				v, verr := item.ValueCopy(nil)
 				if verr != nil {
-					c.err = "other:" + verr.Error()
+					c.err = "other:" + scrub(verr.Error())
 				}
 				c.val, c.found = string(v), true
 			} else {
